@@ -238,7 +238,7 @@ theorem C13_bucket_location_roundtrip (X : Ext) (tag : Bytes) (ns : Option Bytes
         = [.start tag (nsAttr ns), .text (escapeText b), .stop tag] := by
       simp [encodeDoc, textEv, he]
     have hf : locationItem tag tag [.text (escapeText b), .stop tag] .absent = .ok (.one (.str b), [.stop tag]) := by
-      simp [locationItem, FVal.isAbsent, textOf_text_stop, decodeStr_escapeText hv, hb]
+      simp [locationItem, FVal.isAbsent, textOf_text_stop _ _ _ (escapeText_noCr b), decodeStr_escapeText hv, hb]
     rw [henc]
     simp only [decodeDoc, List.length_cons, List.length_nil]
     rw [forEach_step (locationItem tag) _ tag (nsAttr ns) _ [] .absent (.one (.str b)) hf, hend]
@@ -361,26 +361,44 @@ theorem C13_decode_strict (X : Ext) :
 
 /-! ## meaning -/
 
-/-- **An accepted document is given its XML meaning** (FULL since the repair c575458 of `Deserializer::text`; until
-then false for CDATA sections and interrupted text, findings `xml-cdata-dropped` / `xml-comment-splits-text`, now
-fixed). For the character data of every scalar element `<name>run</name>` — at any nesting depth: `d` elements are
-open around `name` (`d = 0`: the element is the root) — whatever mix of text pieces with entity and character
-references, CDATA sections, comments and PIs the run is written as (`charsMeaning run = some m`, no further
-hypothesis):
+/-- **An accepted document is given its XML meaning** (FULL since the repairs c575458 and eab498c of
+`Deserializer::text`; until then false for CDATA sections and interrupted text, findings `xml-cdata-dropped` /
+`xml-comment-splits-text`, and for literal CR LF / CR line ends, finding `xml-eol-not-normalised`; all fixed). For the
+character data of every scalar element `<name>run</name>` — at any nesting depth: `d` elements are open around `name`
+(`d = 0`: the element is the root) — whatever mix of text pieces with entity and character references, CDATA
+sections, comments and PIs the run is written as, and however its line ends are written (`charsMeaning run = some m`,
+no further hypothesis; `charsMeaning` normalises the line ends of the literal text and of CDATA sections with the
+specification's `XmlSpec.normEol`, XML 1.0 §2.11, before references are resolved — `a CR LF b` and `a CR b` denote
+`a LF b`, `a&#13;b` denotes `a CR b`):
 
 1. `Deserializer::text` consumes the whole run up to the end tag and hands the scalar parser (string, str-enum,
    integer, boolean, timestamp alike) a text `raw` whose unescaped form is exactly the string `m` the run denotes —
-   never a shortened one;
-2. a string element is read as `m`, and the cursor is behind the element.
-
-What remains different from the XML meaning is outside this statement: the reader does not normalise line ends
-(§2.11; open finding `xml-eol-not-normalised` — `charsMeaning` takes the pieces as the tokeniser delivers them). -/
+   never a shortened one, never one with a line end left as it was written;
+2. a string element is read as `m`, and the cursor is behind the element. -/
 theorem C13_decode_meaning (X : Ext) (run : List QEv) (name : Bytes) (rest : List QEv) (d : Nat) (m : Bytes)
     (hm : charsMeaning run = some m) :
     (∃ raw, textOf (deEventsAt (d + 1) (run ++ .stop name :: rest)) = .ok (raw, .stop name :: deEventsAt d rest) ∧
       decodeStr raw = .ok m) ∧
     readStringElement X name (deEventsAt (d + 1) (run ++ .stop name :: rest)) = .ok (.str m, deEventsAt d rest) :=
   ⟨textOf_meaning name rest d run m hm, readString_meaning X name rest d run m hm⟩
+
+/-- **Line ends are read as XML 1.0 §2.11 demands** (since the repair eab498c; finding `xml-eol-not-normalised`,
+fixed). What `xml/de.rs` does to the raw text of a CDATA section (`normLineEnds`: nothing when there is no CR,
+otherwise `replace("\r\n", "\n")` then `replace('\r', "\n")`) and of a text piece (`normText`, before references are
+resolved) *is* the specification's line-end normalisation `XmlSpec.normEol` (every CR LF pair and every other CR is
+one LF): for every byte string, respectively every UTF-8 text (a text that is not UTF-8 is refused by every scalar
+parser). The result holds no CR and is UTF-8 again; and a text the serialiser wrote (`escapeText`: CR goes out as
+`&#13;`) passes through untouched — which is why the round-trip theorems above hold for strings with carriage
+returns. -/
+theorem C13_line_ends (x : Bytes) :
+    normLineEnds x = normEol x ∧
+    (utf8Valid x = true → normText x = normEol x ∧ utf8Valid (normEol x) = true) ∧
+    (∀ c ∈ normEol x, c ≠ 13) ∧
+    normText (escapeText x) = escapeText x :=
+  ⟨normLineEnds_eq_normEol x,
+   fun hv => ⟨normText_eq_normEol hv, utf8Valid_normEol hv⟩,
+   normEol_noCr x,
+   normText_of_noCr (escapeText_noCr x)⟩
 
 /-! ## non-vacuity -/
 
@@ -419,6 +437,11 @@ example : deEvents (tokenize [120, 60, 75, 101, 121, 62, 107, 60, 47, 75, 101, 1
 example : deEvents (tokenize ([60, 75, 101, 121, 62, 107, 60, 47, 75, 101, 121, 62] ++
     [60, 33, 91, 67, 68, 65, 84, 65, 91, 93, 93, 62]))
     = [.start t_Key [], .text [107], .stop t_Key, .bad .invalidContent] := by decide
+
+/-- `a CR LF b CR` + comment + `LF c &#13;` + CDATA `CR LF` denotes `a LF b LF LF c CR LF` (a CR at the end of a piece
+and a LF at the start of the next are two line ends: markup stands between them) -/
+example : charsMeaning [.text [97, 13, 10, 98, 13], .comment, .text [10, 99, 38, 35, 49, 51, 59], .cdata [13, 10]]
+    = some [97, 10, 98, 10, 10, 99, 13, 10] := by decide
 
 /-- `<!-- -->a&lt;<![CDATA[b&]]><?pi?>c` denotes `a<b&c` -/
 example : charsMeaning [.comment, .text [97, 38, 108, 116, 59], .cdata [98, 38], .pi, .text [99]] = some [97, 60, 98, 38, 99] := by
